@@ -286,6 +286,10 @@ def EXP_pair(t):
         base = X if k > 0 else Y
         for _ in range(abs(k)):
             P = _mul(P, base)
+    if len(out) >= 3 and getattr(ctx, "exp_axioms", "minimal") == "full":
+        # ground instances of monotonicity for the whole exponent: the pairwise closure axioms of exp_atom do not
+        # reach sums of three or more atoms (e.g. r^2 s^2 c'^2 + r^2 s^2 s'^2 + r^2 c^2 - r^2 = 0)
+        ctx.add_hyp(z3.And(z3.Implies(t == 0, P == Q), z3.Implies(t > 0, P > Q), z3.Implies(t < 0, P < Q)))
     memo[t.get_id()] = (P, Q, t)
     return P, Q
 
